@@ -122,6 +122,12 @@ func Requests(thorough, withPrefixes bool) []Request {
 			}
 		}
 	}
+	if !thorough {
+		// the largest body the signed 16-bit length field admits (thorough has it for every target)
+		add(`Forward ALL "ch" 32767`, UTF("Forward"), UTF("ALL"), ForwardBody("ch", 32767))
+		add(`Forward game "ch" 32767`, UTF("Forward"), UTF("game"), ForwardBody("ch", 32767))
+		add(`ForwardToPlayer bob "ch" 32767`, UTF("ForwardToPlayer"), UTF("bob"), ForwardBody("ch", 32767))
+	}
 	// inner length field that is negative as a Java short / disagrees with the data that follows
 	for _, raw := range [][]byte{{0xFF, 0xFF}, {0x80, 0x00}, {0x00, 0x09, 1, 2}, {0x00, 0x01, 1, 2, 3}} {
 		add("Forward ALL badlen "+hex.EncodeToString(raw), UTF("Forward"), UTF("ALL"), UTF("ch"), raw)
